@@ -26,7 +26,9 @@ def make_variant_classes(registry):
         out.append(pk.make_class(spec, registry))
     plain = pk.make_class(dict(getstate=None, setstate=False, marker=False, base=None, slots=None, statekind='dict'), registry)
     plain_gs = pk.make_class(dict(getstate='plain', setstate=True, marker=False, base=None, slots=None, statekind='dict'), registry)
-    return out, [plain, plain_gs]
+    # derives from the marker base but keeps a standard __getstate__(): pickled the standard way, not an opt-in child
+    plain_marker = pk.make_class(dict(getstate='plain', setstate=True, marker=True, base=None, slots=None, statekind='dict'), registry)
+    return out, [plain, plain_gs, plain_marker]
 
 
 def shapes(O, P):
@@ -87,6 +89,8 @@ def shapes(O, P):
         ('plain-holder', lambda: P(x=O(v=1), y=O(v=2))),
         ('plain-between', lambda: O(p=P(x=O(v=1)))),
         ('plain-sibling', lambda: O(a=O(v=1), p=P(x=5))),
+        ('plain-2siblings', lambda: O(p=P(x=1), q=P(x=2))),
+        ('plain-sibling-in-chain', lambda: O(a=O(a=O(v=1), p=P(x=5)))),
         ('shared-2attrs', shared_attrs),
         ('shared-2holders', shared_holders),
         ('shared-in-list', shared_list),
@@ -166,7 +170,7 @@ def run(tier):
                 return pk.new_instance(pcls, labels, **attrs)
 
             for sname, build in shapes(O, P).items():
-                if pi == 1 and 'plain' not in sname:
+                if pi >= 1 and 'plain' not in sname:
                     continue
                 for proto in (2, 3, 4, 5):
                     g = build()
